@@ -39,6 +39,7 @@ func runC01(c *Ctx) {
 	c.Rule("C01.wire", "runCollector: manager.Config{Reset,Sync,Connect,ConnectError} are bound methods of the collector's cache, the Update closure calls GnmiUpdate on that cache; cache.SetClient receives the bound Update method of the subscribe server passed to RegisterGNMIServer; SetClient and RegisterGNMIServer precede `go srv.Serve`; SetClient precedes the call that starts the targets")
 	c.Rule("C01.stamp", "the manager.Config.Update closure: on every path to Cache.GnmiUpdate(v) the notification's prefix is non-nil and its Target has been stored from the closure's target parameter")
 	c.Rule("C01.cli", "cmd/gnmi_cli: in every function that calls protoRequestFromFlags, every request parser (prototext.Unmarshal, cli.ParseSubscribeProto) is fed from the first result of that call; the raw -proto / -proto_file flags are not read after it")
+	runeIndexAudit(c, "C01.rune-index", []string{"cmd/gnmi_cli", "cli", "client", "client/gnmi", "path"})
 	c.Rule("C01.arms", "client/gnmi defaultRecv and manager.handleGNMIUpdate: an arm for every implementer of the SubscribeResponse oneof or a default returning an error; defaultRecv's update arm ranges over both n.Update and n.Delete and hands every converted element to the handler; CacheClient.defaultHandler: an arm for every client.Notification implementer, Update -> Tree.Add, Delete -> Tree.Delete")
 
 	// ---- relay clauses shared with the component properties: what the composition needs from them
@@ -94,6 +95,7 @@ func runC01(c *Ctx) {
 	}
 	c.Rule("C01.registration-kept", "a client's registration with the change feed survives the end of other clients' streams: removeQuery prunes a node only when it holds neither clients nor children (otherwise the relay to the remaining clients silently stops)")
 	removeQueryPrune(c, "C01.registration-kept")
+	c.Borrow("C07", map[string]string{"C07.resp-faithful": "C01.resp-faithful"}, "the response handed to a subscriber wraps the whole cached notification (or a clone of the whole of it): a response rebuilt from one of its updates drops the other leaves of an atomic group from the client's view")
 	c.Borrow("C13", map[string]string{"C13.session": "C01.relay-session"}, "every ended stream must reset the target's cache state before the next session, or leaves that vanished during the gap stay in the cache and in every client")
 	// ---- reg
 	{
